@@ -1646,6 +1646,27 @@ pub fn generate(seed: u64, index: u32) -> SynthFont {
         // on heavily squashed / stretched nested composites several em large.
         gl.autohint_ok = max_abs + shift + (upem as f64 / 8.0) <= autohint_limit && max_abs <= 4.0 * upem as f64;
     }
+    // ... and only shapes the auto-hinter can classify unambiguously: every contour
+    // of the flattened glyph has at least 3 points and is at least upem/20 wide and
+    // high. All unexplained auto-hinter differences seen so far (4 cases, see
+    // notes/autohint_unexplained.md) needed clusters of zero-area contours: two-point
+    // contours, or slivers produced by squashing transforms, whose coincident
+    // zero-width "stems" make the result depend on threshold ties.
+    let min_extent = (upem as i32 / 20).max(1);
+    for i in 0..g.glyphs.len() {
+        if !g.glyphs[i].autohint_ok {
+            continue;
+        }
+        let contours = flatten_glyphs(&g.glyphs, i);
+        let ok = contours.iter().all(|c| {
+            let (x0, x1) = (c.iter().map(|p| p.x as i32).min().unwrap_or(0), c.iter().map(|p| p.x as i32).max().unwrap_or(0));
+            let (y0, y1) = (c.iter().map(|p| p.y as i32).min().unwrap_or(0), c.iter().map(|p| p.y as i32).max().unwrap_or(0));
+            c.len() >= 3 && x1 - x0 >= min_extent && y1 - y0 >= min_extent
+        });
+        if !ok {
+            g.glyphs[i].autohint_ok = false;
+        }
+    }
     let map_ascii = g.rng.chance(3, 5) && std::env::var("C03_DBG_NO_ASCII").is_err();
     let mut mappings: Vec<(char, u16)> = vec![(' ', 1)];
     if map_ascii {
@@ -2108,19 +2129,24 @@ pub fn describe_glyph(f: &SynthFont, gid: u32) -> Value {
         "header_bbox": g.bbox,
         "advance": g.advance,
         "lsb": g.lsb,
+        "auto_hinter_eligible": g.autohint_ok,
         "recipe": body,
     })
 }
 
 /// Debugging aid: approximate flattening of a glyph into contours (f64 model, rounded).
 pub fn flatten(f: &SynthFont, gid: usize) -> Vec<Vec<Pt>> {
-    match &f.glyphs[gid].recipe {
+    flatten_glyphs(&f.glyphs, gid)
+}
+
+fn flatten_glyphs(glyphs: &[GlyphInfo], gid: usize) -> Vec<Vec<Pt>> {
+    match &glyphs[gid].recipe {
         Recipe::Empty => vec![],
         Recipe::Simple { contours, .. } => contours.clone(),
         Recipe::Composite { comps, .. } => {
             let mut out: Vec<Vec<(f64, f64, bool)>> = vec![];
             for c in comps {
-                let child = flatten(f, c.gid as usize);
+                let child = flatten_glyphs(glyphs, c.gid as usize);
                 let have_xform = c.flags & ANY_XFORM != 0;
                 let m = c.xform.map(f2dot14_to_f64);
                 let mut cp: Vec<Vec<(f64, f64, bool)>> = child
